@@ -15,6 +15,15 @@
    dcoded = Hess.dhess_coded_gauss   (what the DPE variant computes as coded)
    bound  = Hess.hess_bound_gauss k  (the same recurrence on upper bounds of the
             moduli scaled by 2^k: an upper bound of B * 2^(k*n))
+   A line whose first field is E asks for the HEAD error-vector model of the m variant:
+
+       E <n> <k> <sc> <wp> <s_re> <s_im> <h_0_re> <h_0_im> ...      (sc, wp decimal; numbers hex)
+
+   entries and shift are the Gaussian dyadics (re + i im) * 2^-sc; the output line is
+
+       <det_re> <det_im> <det_exp> <err_mantissa> <err_exp>          (mantissas hex, exponents decimal)
+
+   = Hess.mhess_head_dy k wp (HessModelM.mhess_head over exact Gaussian dyadics, bounds rounded up).
    Only conversions between text and the extracted positive/Z live here. *)
 
 open Hess
@@ -78,6 +87,12 @@ let hex_of_z = function
   | Zpos p -> hex_of_pos p
   | Zneg p -> "-" ^ hex_of_pos p
 
+let z_of_int (i : int) : z =
+  if i >= 0 then z_of_hex (Printf.sprintf "%x" i) else z_of_hex ("-" ^ Printf.sprintf "%x" (- i))
+
+let int_of_z (v : z) : int = int_of_string ((function s -> if String.length s > 0 && s.[0] = '-'
+    then "-0x" ^ String.sub s 1 (String.length s - 1) else "0x" ^ s) (hex_of_z v))
+
 let rec take_pairs l =
   match l with
   | [] -> []
@@ -99,6 +114,18 @@ let () =
       let toks = List.filter (fun s -> s <> "") (String.split_on_char ' ' (String.trim line)) in
       match toks with
       | [] -> ()
+      | "E" :: ns :: ks :: scs :: wps :: sre :: sim :: rest ->
+        let n = int_of_string ns in
+        let k = int_of_string ks in
+        let sc = int_of_string scs in
+        let wp = int_of_string wps in
+        let e = z_of_int (- sc) in
+        let h = List.map (fun z -> (z, e)) (take_pairs rest) in
+        if List.length h <> n * n then failwith "wrong number of entries";
+        let rows = split_rows n h in
+        let s = ((z_of_hex sre, z_of_hex sim), e) in
+        let (((dr, di), de), (em, ee)) = mhess_head_dy (z_of_int k) (z_of_int wp) rows (nat_of_int n) s in
+        Printf.printf "%s %s %d %s %d\n" (hex_of_z dr) (hex_of_z di) (int_of_z de) (hex_of_z em) (int_of_z ee)
       | mode :: ns :: ks :: sre :: sim :: rest ->
         let n = int_of_string ns in
         let k = int_of_string ks in
